@@ -225,6 +225,43 @@ pub fn run(ctx: &Ctx) -> (Stats, Report) {
     st.merge(b);
     st.section("timestamp_oracle_dates_x_times_x_offsets", &mut mark);
 
+    // B2: whole calendar cycles at every magnitude: every multiple of 4800 months (400 years)
+    // inside the interval range, and every 7th multiple of 1200 months, from boundary dates,
+    // through Date and Timestamp (almost all must fail; a wrapped or clamped Ok is the target)
+    let cyc_dates = pools::date_pool(seed, if ctx.thorough { 400 } else { 24 });
+    let max_cycles = (YM_MAX / 4800) as i64;
+    let cd = &cyc_dates;
+    let s = par_sweep((2 * max_cycles + 1) as u64, 1 << 12, |range, st| {
+        for j in range {
+            let k = ((j as i64 - max_cycles) * 4800) as i32;
+            for (di, &n) in cd.iter().enumerate() {
+                let which = (di % 2) as u8;
+                st.evaluations += 1;
+                st.nontrivial_enum += 1;
+                if let Err(m) = check_add_ym(which, n as i32, 0, k, j % 2 == 1) {
+                    st.fail(j, Case::new(P, "add_ym", vec![which as i128, n, 0, k as i128, (j % 2) as i128], vec![]), m);
+                    return;
+                }
+            }
+            if j % 7 == 0 {
+                for mult in [1200i64, 12, 48] {
+                    let kk = (j as i64 - max_cycles) * mult * 4 + mult;
+                    if kk.abs() as i128 <= YM_MAX {
+                        let n = cd[(j as usize / 7) % cd.len()];
+                        st.evaluations += 1;
+                        if let Err(m) = check_add_ym(1, n as i32, 1, kk as i32, false) {
+                            st.fail(j, Case::new(P, "add_ym", vec![1, n, 1, kk as i128, 0], vec![]), m);
+                            return;
+                        }
+                    }
+                }
+            }
+        }
+    });
+    st.merge(s);
+    st.exhaustive_sections.push(format!("every multiple of 4800 months within the interval range x {} boundary dates", cyc_dates.len()));
+    st.section("whole_cycle_offsets", &mut mark);
+
     // C: last_day_of_month, all dates (x times for timestamps)
     let lt: Vec<i64> = vec![0, 1, pools::hms(12, 0, 0, 0) as i64, pools::hms(23, 59, 59, 0) as i64, pools::hms(23, 59, 59, 999_999) as i64];
     let l = par_sweep(c.len() as u64, 1 << 13, |range, st| {
